@@ -11,6 +11,7 @@ import (
 	"time"
 
 	"github.com/influxdata/influxdb/models"
+	"github.com/influxdata/influxdb/pkg/verifhook"
 	"github.com/influxdata/influxdb/services/meta"
 	"go.uber.org/zap"
 )
@@ -296,6 +297,9 @@ func (n *NodeProcessor) SendWrite() (int, error) {
 				n.Logger.Error("Failed to truncate queue", zap.Uint64("node", n.nodeID), zap.Uint64("shardID", n.shardID), zap.Error(err))
 			}
 		} else {
+			if verifhook.Enabled {
+				verifhook.Yield("hh.sendwrite.eof")
+			}
 			// Try to skip it.
 			if err := n.queue.Advance(); err != nil {
 				n.Logger.Error("Failed to advance queue", zap.Uint64("node", n.nodeID), zap.Uint64("shardID", n.shardID), zap.Error(err))
